@@ -72,6 +72,7 @@ A4 = [
     " at ",
     "___",
     "5 supra",
+    "eyecite",  # get_citations special-cases exactly this text
 ]
 LONG = [
     "1 U.S. " + "1" * 4400,  # more digits than int() converts by default
@@ -107,7 +108,7 @@ POST = [
     " (1999)", " (2000)", " (2d Cir. 1994)", " (1993 amendments omitted)", " ()", " ()x)", " (", ")", " (x)", " (quoting (y) z)",
     ", 5", ", at 5-6", " [1999]", " (1999", " 1999)", " (99999)", " (n.d.)", ";", ". ", " (West 1999)", " (May 2, 1999)", " (1999-",
     " (Wyo. ", "\n", " (  holding that x)", " ( x )", "  (z)", " (holding that the 1964 Act applies)",
-    ", slip op. at 5", " note 12, at 240", " n. 4, at 7", " (. 1999)", " (*** 1973)", " (  1993)", " [§ 1993]", " (— 1993)",
+    ", 5\u20137", " at 8\u20139", ", slip op. at 5", " note 12, at 240", " n. 4, at 7", " (. 1999)", " (*** 1973)", " (  1993)", " [§ 1993]", " (— 1993)",
 ]
 
 
